@@ -91,6 +91,58 @@ fn phases(seed: u64, tier: Tier) -> Vec<Sub> {
             Err(m) => Verdict { result: Err(m), nontrivial: None },
         }, |_| Value::Null),
     });
+    // string sequences whose fields end around the 16-bit boundaries (offsets kept in narrow
+    // integers wrap there): OSC with 1..3 fields, DCS, SOS/PM/APC
+    {
+        let sizes = [1usize, 25_535, 40_000, 65_534, 65_535, 65_536, 65_537, 70_000];
+        let mut inputs: Vec<Vec<u8>> = vec![];
+        for a in sizes {
+            for b in sizes {
+                if a + b < 65_000 {
+                    continue;
+                }
+                for term in [&b"\x07"[..], b"\x1b\\", b"\x18"] {
+                    let mut v = b"\x1b]".to_vec();
+                    v.extend(std::iter::repeat(b'a').take(a));
+                    v.push(b';');
+                    v.extend(std::iter::repeat(b'b').take(b));
+                    v.extend_from_slice(term);
+                    v.extend_from_slice(b"x\x1b[1my");
+                    inputs.push(v);
+                }
+            }
+            let mut v = b"\x1b]0;".to_vec();
+            v.extend(std::iter::repeat(b'c').take(a));
+            v.extend_from_slice(b";;");
+            v.extend(std::iter::repeat(b'd').take(a));
+            v.extend_from_slice(b"\x07\x1bP1;2q");
+            v.extend(std::iter::repeat(b'e').take(a));
+            v.extend_from_slice(b"\x1b\\\x1b_");
+            v.extend(std::iter::repeat(b'f').take(a));
+            v.extend_from_slice(b"\x1b\\z");
+            inputs.push(v);
+        }
+        let mut acc = Acc::new();
+        for i in &inputs {
+            acc.eval();
+            match rt::guarded(|| one(i)) {
+                Ok(_) => {
+                    acc.nontrivial_distinct();
+                }
+                Err(m) => {
+                    acc.fail("string-fields-around-64k", json!({"hex_prefix": rt::hex(&i[..40]), "length": i.len(), "hex": rt::hex(i)}), m);
+                    break;
+                }
+            }
+        }
+        acc.sample(|| json!({"shape": "ESC ] a x A ; b x B <BEL | ST | CAN> ...", "sizes": sizes.to_vec()}));
+        out.push(Sub {
+            name: "string-fields-around-64k",
+            exhaustive: true,
+            bound: format!("{} fixed inputs: OSC with two fields of 1 / 25535 / 40000 / 65534..65537 / 70000 bytes each (all pairs summing beyond 65000) x 3 terminators, and OSC + DCS + APC with payloads of those sizes", inputs.len()),
+            accs: vec![acc],
+        });
+    }
     out.push(Sub {
         name: "style-words",
         exhaustive: false,
